@@ -2,7 +2,8 @@ import sys, os
 sys.path.insert(0, os.path.join(VERIF, 'harness'))
 from typed_common import *
 HARNESSES = []
-for t in ['T_Seq']:
-    for k in SY:
-        HARNESSES.append(typed(H, 'enc_%s_%s' % (t, k), 'typed/enc_exact.c', t, k,
-                               functions=['%s encoder on %s' % (k, t)], inputs='abstract value of %s (all fields symbolic)' % t))
+for t, k in combos():
+    tiers = ('quick', 'thorough') if t in QUICK_TYPES else ('thorough',)
+    hb = ['-DINT_HARNESS_BOUND=8388607LL'] if (t, k) in HEAVY else []
+    HARNESSES.append(typed(H, 'enc_%s_%s' % (t, k), 'typed/enc_exact.c', t, k, tiers=tiers, defines=hb, bounds=('|v| < 2^23 (unconstrained-length UPER integer)' if hb else ''),
+                           functions=['%s codec on %s' % (k, t)], inputs='abstract value of %s (all fields symbolic)' % t))
